@@ -1,6 +1,7 @@
 (** C01: soundness of the matcher model. *)
 From Sheens Require Import Spec.Contain Proofs.SndBasics Proofs.SndSpecFacts Proofs.SndArrayFacts Proofs.SndSorted.
 From Coq Require Import Lia.
+From Sheens Require Import Proofs.BoundMatch.
 
 (** * Relations between binding sets *)
 
@@ -189,7 +190,7 @@ Lemma var_sound rec (Hrec : sound_rec rec) s f bs r bs' :
   | Using r => Ok r
   | NotUsing =>
       match lookup s bs with
-      | Some b => rec b f bs
+      | Some b => bound_match rec b f bs
       | None => Ok [bset s f bs]
       end
   end = Ok r ->
@@ -201,6 +202,7 @@ Proof.
   - rewrite Hnu in Hres. destruct (lookup s bs) as [w|] eqn:Es.
     + (* bound: the value is matched as a pattern *)
       pose proof (proj1 Hgb _ _ Es) as [Hwvf Hwd].
+      rewrite (bound_match_var_free rec w f bs Hwvf) in Hres.
       destruct (Hrec w f bs r bs' Hf (conj Hext Hgb) Hres Hin) as [Hstep Hfits].
       rewrite (nb_var_free w Hwvf) in Hstep.
       split; [eapply step_incl; [|exact Hstep]; intros k []|].
